@@ -409,6 +409,16 @@ def run(ctx):
             for tk, (extra, imp) in G.overrides(ctx, "override", w.U, trait, allowed, trait).items():
                 if "fmt" in extra:
                     ctx.fail("override", "%s/%s" % (config, tk), "impl overrides the default fmt", imp["span"])
+    # the generic formatting bodies contain cfg-dependent code: repeat their
+    # rules on the no_std builds of both back-ends
+    for config in ("f64-nostd", "dec-nostd"):
+        w = ws.load(config)
+        ctx.configs.append(config)
+        amt = ws.amount_type(config)
+        quantity_fmt(ctx, config, w.U, amt)
+        single_sign(ctx, config, w.U, amt)
+        unit_fmt(ctx, config, w.U)
+        rate_fmt(ctx, config, w.U)
     ctx.rule_text = "Quantity::fmt: 8 guard cases (symbol empty x sign x precision); Unit::fmt; Rate Display: 6 cases; one forwarder per generated Display impl"
     ctx.trusted = ["format_args! byte-code layout of the pinned toolchain (decoded, fail-closed)",
                    "std / fpdec formatting: digit generation, rounding at a precision, width/fill/alignment handling, Formatter::pad_integral, the '+' flag"]
